@@ -71,15 +71,18 @@ def d1(ctx, F):
 
 
 def d2(ctx, F):
-    tf = F.one_body(r"^<selium_protocol::topic_name::TopicName as core::convert::TryFrom<&str>>::try_from$")
-    iv = F.body(TN + "::is_valid")
-    ctx.touch(tf, iv)
+    tf0 = F.one_body(r"^<selium_protocol::topic_name::TopicName as core::convert::TryFrom<&str>>::try_from$")
+    iv0 = F.body(TN + "::is_valid")
+    ctx.touch(tf0, iv0)
+    # private predicates / guard helpers are looked through (inlined, with their returns threaded to the caller's branches)
+    tf = F.inlined(tf0, keep=(TN + "::is_valid",))
+    iv = F.inlined(iv0)
     # reserved prefix in try_from (default features: __notopiccheck off); the test may sit in a closure
     # handed to Option::is_some_and / map_or (accepted family)
     good = False
     where = tf.span
     cands = []
-    for b in [tf] + F.closures_of(tf):
+    for b in [tf] + F.closures_of(tf0):
         for c in b.calls_to("core::str::<impl str>::starts_with"):
             item = c.args[1].get("item") if len(c.args) > 1 else None
             if item == "selium_protocol::topic_name::RESERVED_NAMESPACE":
@@ -157,6 +160,7 @@ def d2(ctx, F):
     # create() goes through is_valid
     cr = F.body(TN + "::create")
     ctx.touch(cr)
+    cr = F.inlined(cr, keep=(TN + "::is_valid",))
     ivc = cr.calls_to(TN + "::is_valid")
     okc = False
     if ivc:
@@ -189,7 +193,7 @@ def d3(ctx, F, top):
                 return "D6: capture group %d exists and is not optional in the parsed literal (%d groups)" % (i, ngroups)
         return None
     sites = panics.analyse(ctx, bodies, "C07.D3.no-panic", extra_rules=[capture_unwrap], include_alloc=False)
-    ctx.floor("C07.D3.no-panic.sites", len(sites), 2)
+    ctx.floor("C07.D3.no-panic.bodies", len(bodies), 4)
 
 
 def d4(ctx, F):
